@@ -43,6 +43,7 @@ def scenario(r: random.Random) -> list[list[dict[str, Any]]]:
     if not any(a["a"] == "append" for a in progs[0]):
         progs[0].append({"a": "append", "recs": [{"w": 0, "i": 50, "pad": "v" * r.choice([0, 9])}]})
     for t in range(1, nth):
+        progs[t].append({"a": "read", "from": 0})   # a survivor may read before anybody repairs the tail
         progs[t].append({"a": "append", "recs": [{"w": t, "i": 90, "pad": ""}]})
         progs[t].append({"a": "append", "recs": [{"w": t, "i": 91, "pad": "s"}]})
         progs[t].append({"a": "read", "from": 0})
@@ -149,24 +150,19 @@ def explore(chk: core.Check, n_scen: int, all_offsets: bool) -> None:
 
 # ---- SQLite: kill a child at the k-th statement -------------------------------------------------------------------
 CHILD = r'''
-import os, sys, json
+import os, sys, json, datetime
 sys.path.insert(0, %(root)r)
-import sqlalchemy
 from sqlalchemy import event
 import optuna
 from optuna.storages import RDBStorage
-from optuna.study import StudyDirection
-from optuna.trial import TrialState
-from optuna.distributions import FloatDistribution
+from optuna.trial import TrialState, FrozenTrial
+from optuna.distributions import FloatDistribution, CategoricalDistribution
 optuna.logging.set_verbosity(optuna.logging.ERROR)
-url, k, mode = sys.argv[1], int(sys.argv[2]), sys.argv[3]
+url, k = sys.argv[1], int(sys.argv[2])
 st = RDBStorage(url, engine_kwargs={"connect_args": {"timeout": 30}})
 sid = st.get_study_id_from_name("s")
 count = [0]
-armed = [False]
 def tick(*a, **kw):
-    if not armed[0]:
-        return
     count[0] += 1
     if count[0] == k:
         os._exit(9)
@@ -174,71 +170,105 @@ event.listen(st.engine, "before_cursor_execute", tick)
 event.listen(st.engine, "commit", tick)
 def ack(x):
     print("ACK " + json.dumps(x), flush=True)
-armed[0] = True
-t = st.create_new_trial(sid); ack(["created", t])
-st.set_trial_param(t, "x", 0.5, FloatDistribution(0, 1)); ack(["param", t])
-st.set_trial_intermediate_value(t, 0, 1.5); ack(["inter", t])
-st.set_trial_user_attr(t, "k", {"a": 1}); ack(["attr", t])
-st.set_trial_state_values(t, TrialState.COMPLETE, [0.25]); ack(["complete", t])
+t = st.create_new_trial(sid); ack("created")
+st.set_trial_param(t, "x", 0.5, FloatDistribution(0, 1)); ack("param")
+st.set_trial_intermediate_value(t, 0, 1.5); ack("inter")
+st.set_trial_user_attr(t, "k", {"a": 1}); ack("attr")
+st.set_trial_state_values(t, TrialState.COMPLETE, [0.25]); ack("complete")
+tmpl = FrozenTrial(number=-1, trial_id=-1, state=TrialState.COMPLETE, value=None, values=[1.0],
+    datetime_start=datetime.datetime(2024, 1, 1), datetime_complete=datetime.datetime(2024, 1, 2),
+    params={"x": 0.25, "c": "b"}, distributions={"x": FloatDistribution(0, 1), "c": CategoricalDistribution(["a", "b"])},
+    user_attrs={"u": 1}, system_attrs={"fixed_params": {"x": 0.25}}, intermediate_values={0: 0.5, 3: float("inf")})
+st.create_new_trial(sid, tmpl); ack("template")
+st.set_study_user_attr(sid, "done", True); ack("study-attr")
 print("DONE %%d" %% count[0], flush=True)
 '''
 
+STAGES = ["created", "param", "inter", "attr", "complete", "template", "study-attr"]
 
-def sqlkill(chk: core.Check, max_k: int) -> None:
-    import optuna
+
+def _visible(url: str, sid: int) -> tuple[list[str], str | None]:
+    # What a fresh opener sees, as a prefix of STAGES; or a description of a half-applied call.
+    from optuna.storages import RDBStorage
+    from optuna.trial import TrialState
+
+    st2 = RDBStorage(url)
+    trials = st2.get_all_trials(sid)
+    seen: list[str] = []
+    if trials:
+        t = trials[0]
+        seen.append("created")
+        if "x" in t.params:
+            seen.append("param")
+        if 0 in t.intermediate_values:
+            seen.append("inter")
+        if "k" in t.user_attrs:
+            seen.append("attr")
+        if t.state == TrialState.COMPLETE and t.values == [0.25]:
+            seen.append("complete")
+        elif t.state == TrialState.COMPLETE or t.values is not None:
+            return seen, "set_trial_state_values half applied: state=%s values=%s" % (t.state, t.values)
+    if len(trials) >= 2:
+        t = trials[1]
+        full = (t.state == TrialState.COMPLETE and t.values == [1.0] and t.params == {"x": 0.25, "c": "b"} and t.user_attrs == {"u": 1}
+                and t.system_attrs == {"fixed_params": {"x": 0.25}} and t.intermediate_values == {0: 0.5, 3: float("inf")} and t.number == 1)
+        if not full:
+            return seen, "create_new_trial(template) half applied: state=%s values=%s params=%s user=%s system=%s inter=%s number=%s" % (
+                t.state, t.values, t.params, t.user_attrs, t.system_attrs, t.intermediate_values, t.number)
+        seen.append("template")
+    if st2.get_study_user_attrs(sid).get("done"):
+        seen.append("study-attr")
+    return seen, None
+
+
+def _kill_one(args: tuple[str, str, int]) -> dict[str, Any]:
+    script, tmp, k = args
     from optuna.storages import RDBStorage
     from optuna.study import StudyDirection
-    from optuna.trial import TrialState
+
+    url = "sqlite:///" + os.path.join(tmp, "kill_%d_%d.db" % (os.getpid(), k))
+    st = RDBStorage(url)
+    sid = st.create_new_study([StudyDirection.MINIMIZE], "s")
+    del st
+    p = subprocess.run([sys.executable, script, url, str(k)], capture_output=True, text=True, timeout=300, env=dict(os.environ))
+    acks = [json.loads(l[4:]) for l in p.stdout.splitlines() if l.startswith("ACK ")]
+    done = any(l.startswith("DONE") for l in p.stdout.splitlines())
+    try:
+        seen, half = _visible(url, sid)
+    except Exception as e:  # noqa: BLE001
+        return {"k": k, "acks": acks, "done": done, "unreadable": "%s: %s" % (type(e).__name__, str(e)[:200])}
+    return {"k": k, "acks": acks, "done": done, "seen": seen, "half": half, "stderr": p.stderr[-300:] if not acks and not done else ""}
+
+
+def sqlkill(chk: core.Check, max_k: int) -> None:
+    from concurrent.futures import ThreadPoolExecutor
 
     script = os.path.join(chk.tmp, "child.py")
     with open(script, "w") as f:
         f.write(CHILD % {"root": core.REPO})
+    with ThreadPoolExecutor(12) as ex:
+        results = list(ex.map(_kill_one, [(script, chk.tmp, k) for k in range(1, max_k + 1)]))
     total = None
-    for k in range(1, max_k + 1):
-        url = "sqlite:///" + os.path.join(chk.tmp, "kill_%d.db" % k)
-        st = RDBStorage(url)
-        sid = st.create_new_study([StudyDirection.MINIMIZE], "s")
-        del st
-        p = subprocess.run([sys.executable, script, url, str(k), "x"], capture_output=True, text=True, timeout=120,
-                           env=dict(os.environ, PYTHONPATH=os.environ.get("PYTHONPATH", "")))
-        acks = [json.loads(l[4:]) for l in p.stdout.splitlines() if l.startswith("ACK ")]
-        done = any(l.startswith("DONE") for l in p.stdout.splitlines())
-        if done:
+    for r in results:
+        k = r["k"]
+        if r["done"] and total is None:
             total = k
-        st2 = RDBStorage(url)
-        try:
-            trials = st2.get_all_trials(sid)
-        except Exception as e:  # noqa: BLE001
-            chk.violation({"kind": "sqlite-unreadable-after-kill"}, {"k": k}, "after SIGKILL at SQL event %d the database cannot be read: %s" % (k, e))
+        if total is not None and k > total:
+            continue
+        if "unreadable" in r:
+            chk.violation({"kind": "sqlite-unreadable-after-kill"}, {"k": k}, "after SIGKILL at SQL event %d the database cannot be read: %s" % (k, r["unreadable"]))
             return
-        # the prefix of acknowledged calls must be visible; the interrupted call is all or nothing
-        stages = ["created", "param", "inter", "attr", "complete"]
-        got = [a[0] for a in acks]
-        t = trials[0] if trials else None
-        seen = []
-        if t is not None:
-            seen.append("created")
-            if "x" in t.params:
-                seen.append("param")
-            if 0 in t.intermediate_values:
-                seen.append("inter")
-            if "k" in t.user_attrs:
-                seen.append("attr")
-            if t.state == TrialState.COMPLETE and t.values == [0.25]:
-                seen.append("complete")
-            elif t.state == TrialState.COMPLETE or t.values is not None:
-                chk.violation({"kind": "sqlite-half-applied-call"}, {"k": k, "acks": got},
-                              "SIGKILL at SQL event %d left set_trial_state_values half applied: state=%s values=%s" % (k, t.state, t.values))
-                return
-        ok = seen[: len(got)] == got and len(seen) <= len(got) + 1 and seen == stages[: len(seen)]
-        chk.case({"part": "sqlkill", "k": k, "acked": got, "visible": seen}, nontrivial=not done)
+        got, seen = r["acks"], r["seen"]
+        chk.case({"part": "sqlkill", "k": k, "acked": got, "visible": seen}, nontrivial=not r["done"])
         chk.count("sqlkill")
+        if r["half"]:
+            chk.violation({"kind": "sqlite-half-applied-call"}, {"k": k, "acks": got, "visible": seen}, "SIGKILL at SQL event %d: %s" % (k, r["half"]))
+            return
+        ok = seen[: len(got)] == got and len(seen) <= len(got) + 1 and seen == STAGES[: len(seen)]
         if not ok:
             chk.violation({"kind": "sqlite-acked-write-lost"}, {"k": k, "acks": got, "visible": seen},
                           "SIGKILL at SQL event %d: acknowledged %s but a fresh opener sees %s" % (k, got, seen))
             return
-        if done:
-            break
     chk.extra["sqlkill_events_total"] = total
 
 
@@ -254,7 +284,7 @@ def main(chk: core.Check) -> int:
     quick = chk.tier == "quick"
     explore(chk, 10 if quick else 150, all_offsets=not quick)
     try:
-        sqlkill(chk, 12 if quick else 400)
+        sqlkill(chk, 120 if quick else 200)
     except Exception as e:  # noqa: BLE001
         chk.extra["sqlkill_error"] = str(e)[:300]
     chk.assumptions += ["kill -9 of a process = its thread never runs again (no finally, files stay as they are); bytes written and flushed before the kill are in the file (page-cache loss / power failure is out of scope)",
